@@ -8,12 +8,12 @@ Open Scope R_scope.
 Ltac runfold := cbv beta iota zeta delta
   [Num.T Num.zero Num.one Num.add Num.sub Num.mul Num.div Num.neg Num.ltb Num.leb Num.eqb Num.ofZ RNum
    gtb geb neqb pw absN minN isclose
-   f_exp f_log f_sqrt f_lgamma f_tan f_sin f_pi f_euler_gamma f_isfinite f_isinf f_lit RF
+   f_exp f_log f_sqrt f_lgamma f_tan f_sin f_log1p f_expm1 f_pi f_euler_gamma f_isfinite f_isinf f_lit RF
    valid_moments valid_gamma valid_hyp1f1 valid_hyperu valid_hyp2f1].
 Ltac runfold_in H := cbv beta iota zeta delta
   [Num.T Num.zero Num.one Num.add Num.sub Num.mul Num.div Num.neg Num.ltb Num.leb Num.eqb Num.ofZ RNum
    gtb geb neqb pw absN minN isclose
-   f_exp f_log f_sqrt f_lgamma f_tan f_sin f_pi f_euler_gamma f_isfinite f_isinf f_lit RF
+   f_exp f_log f_sqrt f_lgamma f_tan f_sin f_log1p f_expm1 f_pi f_euler_gamma f_isfinite f_isinf f_lit RF
    valid_moments valid_gamma valid_hyp1f1 valid_hyperu valid_hyp2f1] in H.
 
 (** decide the first real comparison of the goal *)
